@@ -31,9 +31,10 @@ def gen(rng):
     op = rng.choice(['sum', 'sum', 'cumsum', 'prod', 'cumprod', 'dot', 'dot', 'trace', 'max', 'min', 'sort', 'clip', 'transpose', 'diagonal', 'matmul'])
     axis = rng.choice([None] + list(range(len(shape)))) if op in ('sum', 'cumsum', 'prod', 'cumprod', 'max', 'min', 'sort') else None
     if op in ('sum', 'prod', 'max', 'min') and len(shape) == 2 and rng.random() < 0.2: axis = (0, 1)      # (a tuple of axes is a valid axis)
-    if op == 'sort' and axis is None: axis = -1
+    route_ = rng.choice(['numpy', 'method'])
+    if op == 'sort' and axis is None and route_ == 'method': axis = -1      # (np.sort(x, axis=None) sorts the flattened array; the in-place method needs an axis)
     if isinstance(axis, int) and not isinstance(axis, bool) and axis >= 0 and rng.random() < 0.3: axis = axis - len(shape)      # (a negative axis names the same axis)
-    c = {'f': [s, nw, nf], 'shape': list(shape), 'codes': codes, 'op': op, 'axis': axis, 'route': rng.choice(['numpy', 'method'])}
+    c = {'f': [s, nw, nf], 'shape': list(shape), 'codes': codes, 'op': op, 'axis': axis, 'route': route_}
     if op == 'sort' and len(shape) == 2 and rng.random() < 0.5: c['view_sort'] = rng.randint(0, 7)
     if op in ('dot', 'matmul'):
         nw2 = rng.randint(2, 12); s2 = rng.random() < 0.6; nf2 = rng.randint(0, nw2); lo2, hi2 = S.fmt_bounds(s2, nw2)
@@ -203,10 +204,55 @@ def run_vpath_int(rng, n, res):
         if got != want or st != (False, False):
             res.fail(c, 'C15: %s by the value method on integer-valued elements with a negative fraction length is not the exact result (an int64 intermediate wrapped)' % op, expected=[str(w) for w in want], got=([str(g) for g in got], st))
 
+def frac_bits(q):
+    """the least n with q * 2**n an integer (q a dyadic rational)"""
+    d = Fraction(q).denominator; return d.bit_length() - 1
+
+def gen_target(rng):
+    """the accumulating functions writing into a caller-chosen format (out= / out_like=) that holds every result exactly"""
+    s = rng.random() < 0.6; nw = rng.randint(2, 8); nf = rng.randint(0, nw); lo, hi = S.fmt_bounds(s, nw)
+    shape = rng.choice([(2,), (3,), (4,), (5,), (2, 2), (2, 3), (3, 2)]); n = int(math.prod(shape))
+    k = rng.random()
+    # (codes with trailing zero bits: the results need fewer fraction bits than the optimal format has)
+    sh = rng.choice([0, 0, 1, 2, nf])
+    codes = [max(lo, min(hi, (rng.choice([lo, hi, 1, rng.randint(lo, hi), rng.randint(lo, hi)]) >> sh) << sh)) for _ in range(n)]
+    op = rng.choice(['sum', 'cumsum', 'prod', 'cumprod', 'cumprod', 'max', 'min'])
+    if op in ('prod', 'cumprod') and n * nw > 40: return gen_target(rng)
+    return {'f': [s, nw, nf], 'shape': list(shape), 'codes': codes, 'op': op, 'target': rng.choice(['out', 'out_like', 'out_np']), 'slack': rng.choice([0, 0, 1, 3]), 'route': rng.choice(['numpy', 'method'])}
+
+def run_target(cases, res):
+    fx = lib.impl(); import numpy as np
+    for c in cases:
+        s, nw, nf = c['f']; shape = tuple(c['shape']); op = c['op']
+        arr = np.array(c['codes'], dtype=object).reshape(shape); lsb = Fraction(2) ** (-nf)
+        if op == 'sum': exact = [np.sum(arr) * lsb]; eshape = []
+        elif op == 'prod': exact = [np.prod(arr) * lsb ** arr.size]; eshape = []
+        elif op == 'max': exact = [np.max(arr) * lsb]; eshape = []
+        elif op == 'min': exact = [np.min(arr) * lsb]; eshape = []
+        elif op == 'cumsum': exact = [Fraction(int(v)) * lsb for v in np.cumsum(arr)]; eshape = [arr.size]
+        else: exact = [Fraction(int(v)) * lsb ** (i + 1) for i, v in enumerate(np.cumprod(arr))]; eshape = [arr.size]
+        exact = [Fraction(e) for e in exact]
+        tnf = max(frac_bits(e) for e in exact) + c['slack']
+        tnw = max(abs(int(e * 2 ** tnf)) for e in exact).bit_length() + 1 + c['slack']
+        if tnw > 53: continue
+        try:
+            x = A.mk(fx, np, s, nw, nf, c['codes'], shape=shape)
+            tgt = fx.Fxp(np.zeros(eshape) if eshape else 0.0, True, tnw, tnf) if c['target'] != 'out_like' else fx.Fxp(None, True, tnw, tnf)
+            kw = {'out_like': tgt} if c['target'] == 'out_like' else {'out': tgt}
+            z = getattr(x, op)(**kw) if c['route'] == 'method' else (getattr(fx.functions, {'max': 'fxp_max', 'min': 'fxp_min'}.get(op, op))(x, **kw) if c['target'] == 'out_like' else getattr(np, op)(x, **kw))      # (out_like is not a NumPy keyword: the library function takes it)
+            got = [Fraction(t) / Fraction(2) ** z.n_frac for t in lib.codes_of(z)]; fmt = A.fmt_of(z); st = lib.status3(z)
+            same = z is tgt
+        except Exception as e:
+            res.fail(c, 'C15: %s into a caller-chosen format raised %s' % (op, lib.exc_name(e)), got=str(e)[:300]); continue
+        res.count('T:into-a-target-format', key=repr(c), nontrivial=any(e != 0 for e in exact))
+        if got != exact or fmt != (True, tnw, tnf) or st[0] or st[1] or lib.codes_of(x) != c['codes'] or (c['target'] != 'out_like' and not same):
+            res.fail(c, 'C15: %s into a caller-chosen format that holds every result is not the exact result' % op, expected=([str(e) for e in exact[:9]], (True, tnw, tnf)), got=([str(g) for g in got[:9]], fmt, st))
+
 def shard(shard, nshards, rng, tier, extra):
     res = Result()
     run_cases([gen(rng) for _ in range((15000 if tier == 'quick' else 120000) // nshards)], res)
     run_vpath_int(rng, (900 if tier == 'quick' else 8000) // nshards, res)
+    run_target([gen_target(rng) for _ in range((3000 if tier == 'quick' else 25000) // nshards)], res)
     return res
 
 def run(seed, tier):
@@ -227,5 +273,8 @@ def replay_vpath(c):
 
 def replay(payload):
     if 'vcodes' in payload.get('case', {}): return replay_vpath(payload['case'])
+    if 'target' in payload.get('case', {}):
+        res = Result(); run_target([payload['case']], res)
+        return {'holds': not res.failures, 'failures': res.failures}
     res = Result(); run_cases([payload['case']], res)
     return {'holds': not res.failures, 'failures': res.failures}
